@@ -1,9 +1,13 @@
 # case setup hooks that attach the C front-end and library models
 from . import driver, stubs_hash, stubs_big, stubs_chacha
 
+def _defs(case):
+    d = (case.opts or {}).get('c_defs') if case is not None else None
+    return tuple(d) if d else ('-D__ADX__',)
+
 def with_c(ex, case):
     from . import stubs_ecdsa
-    ex.llvm = driver.get_llvm()
+    ex.llvm = driver.get_llvm(defs=_defs(case))
     stubs_hash.install(ex)
     stubs_big.install(ex)
     stubs_chacha.install(ex)
@@ -32,13 +36,13 @@ _GALG = {}
 def with_galg(ex, case):
     """C front-end with the algebraic group model at the BLST boundary"""
     from . import llvm, galg, stubs_galg
-    base = driver.get_llvm()
-    L = _GALG.get('L')
+    base = driver.get_llvm(defs=_defs(case))
+    L = _GALG.get(_defs(case))
     if L is None:
         L = llvm.LLVM(base.mod)
         L.stubs = dict(base.stubs)
         galg.install(L)
-        _GALG['L'] = L
+        _GALG[_defs(case)] = L
     ex.llvm = L
     ex.galg_scalars = True
     ex.galg_coord_axioms = bool(case is not None and case.opts.get('coord_axioms'))
